@@ -743,6 +743,9 @@ def subm(a, b, out=None):
         raise ValueError('mahotas.subm: This is only well-defined if both arguments are of the same type')
     out = _get_output(a, out, 'subm')
     if out is not a:
+        if np.may_share_memory(out, b):
+            # `out` is (a view of) `b`: keep the subtrahend before `out` is overwritten with `a`
+            b = b.copy()
         out[:] = a
     return _morph.subm(out, b)
 
